@@ -304,6 +304,10 @@ class Oracle:
                 xq.append(xs)
             tabs = {}
             nder = max(1, part.nderiv)
+            xsub = prog.spaces[prog.coord].subs[0]
+            bends = prog.tdim == prog.gdim and (xsub["raw"].embedded_superdegree > 1 or prog.cell in ("quadrilateral", "hexahedron", "prism"))
+            if bends and (part.nderiv >= 2 or (part.nderiv >= 1 and any(s_["map"] != "identity" for sp in prog.spaces.values() for s_ in sp.subs))):
+                nder = max(2, nder)          # Fem.tla then also gets the second derivatives of the geometry
             for key_, (name, sub) in prog.raw_names.items():
                 tabs[name] = [tabulate_raw(sub, xq[s], nder, prog.tdim) for s in range(prog.nsides)]
             parts.append({"tree": part.tree, "aleaves": part.aleaves, "cleaves": part.cleaves,
@@ -567,6 +571,22 @@ def make_geometry(prog: Program, kind: str, rnd: random.Random, facet=None):
         nodes = affine_geometry(prog, rnd, M=M)
     else:
         nodes = affine_geometry(prog, rnd)
+    if kind == "gentle":
+        # the reference cell itself (scaled to integers) with one node nudged by one unit: keeps det J, K and
+        # their derivatives at small denominators (cases that need second derivatives of the geometry)
+        X = coord_nodes(prog)
+        den = 1
+        for p_ in X:
+            for c_ in p_:
+                den = den * c_.denominator // math.gcd(den, c_.denominator)
+        sc = den * rnd.choice([1, 2])
+        nodes = [[int(sc * c_) for c_ in p_] for p_ in X]
+        geom, topo = ref_geometry(prog.cell)
+        nv = len(topo[0])
+        cand = list(range(nv, len(nodes))) if len(nodes) > nv else list(range(nv))
+        n = rnd.choice(cand)
+        nodes[n][rnd.randrange(gd)] += rnd.choice([-1, 1])
+        return nodes
     if kind == "nonaffine":
         geom, topo = ref_geometry(prog.cell)
         nv = len(topo[0])
@@ -644,7 +664,7 @@ def enumerate_formspace(chk=None, facets=False, exprs=False, complex_terms=False
 
 
 _NDOF = {"P1": 1, "P2": 3, "P3": 6, "DG0": 0.4, "DG1": 1, "vP1": 2.5, "vP2": 7, "symP1": 3, "TH": 8, "RT1": 1, "N1": 1.5,
-         "BDM1": 2, "RTxDG0": 1.5, "bubble": 1.5, "real": 0.3, "quad": 1}
+         "BDM1": 2, "RTxDG0": 1.5, "bubble": 1.5, "real": 0.3, "quad": 1, "RTCF1": 1.5, "RTCE1": 1.5}
 _CELLW = {"interval": 0.3, "triangle": 1, "quadrilateral": 2, "tetrahedron": 3, "hexahedron": 10}
 
 
